@@ -304,6 +304,26 @@ pub fn handle_with(mut rq: Request, act: &Action, peer_expect: &str, partial: Op
             let _ = w.flush();
             drop(w);
         }
+        "V" => {
+            // raw writer: gathered writes (head and body as two slices) until everything is written, flush, drop
+            let data = unhex(rest);
+            let mut w = rq.into_writer();
+            let a = data.len() / 3;
+            let mut done = 0usize;
+            while done < data.len() {
+                let r = if done < a {
+                    w.write_vectored(&[std::io::IoSlice::new(&data[done..a]), std::io::IoSlice::new(&data[a..])])
+                } else {
+                    w.write_vectored(&[std::io::IoSlice::new(&data[done..])])
+                };
+                match r {
+                    Ok(0) | Err(_) => break,
+                    Ok(k) => done += k,
+                }
+            }
+            let _ = w.flush();
+            drop(w);
+        }
         "Z" => {
             // takes the raw writer and drops it untouched
             let w = rq.into_writer();
@@ -403,8 +423,8 @@ pub fn run_case(servers: &mut Servers, f: &[&str]) -> String {
         crate::LIB_PANICS.store(0, Ordering::SeqCst);
     }
 
-    if eof && (fin == "rst" || fin == "full") {
-        return run_vanish(servers, kind, &stream, &script, &fin);
+    if eof && (fin == "rst" || fin == "full" || fin == "unread") {
+        return run_vanish(servers, kind, &stream, &script, &fin, c14);
     }
     let conn = servers.connect(kind);
     let peer = conn.local_addr_string();
@@ -624,12 +644,23 @@ pub fn run_case(servers: &mut Servers, f: &[&str]) -> String {
 /// The client sends its bytes and vanishes at once: `full` = closes the socket (FIN; later data from
 /// the server is answered by RST), `rst` = abortive close (SO_LINGER 0, TCP). Nothing can be read
 /// back; the observation is what the application was handed and whether answering worked.
-fn run_vanish(servers: &mut Servers, kind: &str, stream: &[u8], script: &[Action], fin: &str) -> String {
+fn run_vanish(servers: &mut Servers, kind: &str, stream: &[u8], script: &[Action], fin: &str, c14: bool) -> String {
     let mut c = servers.connect(kind);
     let peer = c.local_addr_string();
     let _ = c.write_all(stream);
+    // unread: the client stays for 150 ms (the handler runs, the server's bytes arrive), then closes WITHOUT having read
+    // them: the kernel answers with a reset, and the server's next read fails with an error instead of end-of-stream
+    let mut late_close: Option<std::thread::JoinHandle<()>> = None;
+    let mut c = Some(c);
+    if fin == "unread" {
+        let cc = c.take().unwrap();
+        late_close = Some(std::thread::spawn(move || {
+            std::thread::sleep(Duration::from_millis(150));
+            drop(cc);
+        }));
+    }
     if fin == "rst" {
-        if let Conn::T(s) = &c {
+        if let Some(Conn::T(s)) = &c {
             use std::os::unix::io::AsRawFd;
             let l = libc::linger { l_onoff: 1, l_linger: 0 };
             unsafe {
@@ -643,7 +674,8 @@ fn run_vanish(servers: &mut Servers, kind: &str, stream: &[u8], script: &[Action
     let mut last = Instant::now();
     let mut reqs: Vec<String> = Vec::new();
     let mut idx = 0;
-    while start.elapsed() < Duration::from_millis(3000) && last.elapsed() < Duration::from_millis(120) {
+    let quiet = if fin == "unread" { 400 } else { 120 };
+    while start.elapsed() < Duration::from_millis(3000) && last.elapsed() < Duration::from_millis(quiet) {
         if let Ok(Some(rq)) = servers.server(kind).recv_timeout(Duration::from_millis(5)) {
             let act = if idx < script.len() { &script[idx] } else { script.last().unwrap() };
             idx += 1;
@@ -655,5 +687,20 @@ fn run_vanish(servers: &mut Servers, kind: &str, stream: &[u8], script: &[Action
             last = Instant::now();
         }
     }
-    format!("n={} {}wire=- end=closed stray=0", reqs.len(), reqs.iter().map(|r| format!("{} ", r)).collect::<String>())
+    if let Some(h) = late_close {
+        let _ = h.join();
+    }
+    let extra = if c14 {
+        std::thread::sleep(Duration::from_millis(30));
+        let p = crate::LIB_PANICS.load(Ordering::SeqCst);
+        format!(
+            " maxalloc={} panics={}{}",
+            crate::MAX_ALLOC.load(Ordering::SeqCst),
+            p,
+            if p > 0 { format!(" panic={}", crate::LAST_PANIC.lock().map(|g| g.clone()).unwrap_or_default()) } else { String::new() }
+        )
+    } else {
+        String::new()
+    };
+    format!("n={} {}wire=- end=closed stray=0{}", reqs.len(), reqs.iter().map(|r| format!("{} ", r)).collect::<String>(), extra)
 }
